@@ -31,6 +31,13 @@ STEP_KINDS = [
 REQUIRED_COUNTERS = ["histories", "compare.calls", "compare.accepted", "compare.rejected", "triples",
                      "target.Object", "target.Element"] + [f"step.{k}" for k in STEP_KINDS]
 
+ANCHORS = [
+    "statham.schema.elements.base:Element.validators",
+    "statham.schema.elements.meta:ObjectMeta.validators",
+    "statham.schema.property:_PropertyDict.__setitem__",
+    "statham.schema.validation:get_validators",
+]
+
 
 def plan(tier):
     if tier == "quick":
